@@ -223,8 +223,17 @@ def run(check, mirror, tier):
             d["l_closed"], d["r_closed"] = model_value(m, inputs["l_closed"]), model_value(m, inputs["r_closed"])
             return d
 
+        def prefer(v):
+            # a range endpoint is written as a plain literal: witnesses without negative numbers
+            c = []
+            for n in names:
+                x = v[n]
+                if isinstance(x, En) and "Number" in x.alts and isinstance(x.alts["Number"][0], Opaque) and isinstance(x.alts["Number"][0].e, z3.ExprRef):
+                    c.append(x.alts["Number"][0].e >= 0)
+            return z3.And(c) if c else z3.BoolVal(True)
+
         return lambda c: decide(c, crate, "in_range/%s" % kind, setup, post, replay_in_range, rb, models=MODELS, describe=desc,
-                                budget_s=900, min_paths=1, timeout_ms=20000)
+                                budget_s=900, min_paths=1, timeout_ms=20000, prefer=prefer)
     for kind in ["Number", "String", "Date"]:
         jobs.append(in_range_job(kind))
 
